@@ -177,7 +177,8 @@ def model_line(case):
 def render_line(body):
     def ch(c):
         return {"sp": c["sp"], "before": list(c.get("before") or [])}
-    evs = [{"name": e.get("name"), "data": e["data"], "nc": ch(e.get("nc") or G.DFLT), "dc": [ch(c) for c in e.get("dc") or []]}
+    evs = [{"name": e.get("name"), "data": e["data"], "nc": ch(e.get("nc") or G.DFLT), "dc": [ch(c) for c in e.get("dc") or []],
+            "after": list(e.get("after") or [])}
            for e in body["events"]]
     return {"m": "http", "op": "render", "events": evs, "eols": list(body.get("eols") or []), "tail": body.get("tail", "full")}
 
